@@ -8,11 +8,27 @@ func init() {
 		Jobs: func(tier string) []sym.Job {
 			var js []sym.Job
 			add := func(k, target int, cs ...int) {
-				pm := map[string]int{"k": k, "target": target, "c0": 0, "c1": 0, "c2": 0, "c3": 0, "tricky": 0}
+				pm := map[string]int{"k": k, "target": target, "c0": 0, "c1": 0, "c2": 0, "c3": 0, "tricky": 0, "pre": 0}
 				for i, c := range cs {
 					pm[[]string{"c0", "c1", "c2", "c3"}[i]] = c
 				}
 				js = append(js, sym.Job{Harness: "VH_C06_batches", Params: pm, MaxPath: 400000})
+				mixed := false
+				for _, c := range cs {
+					if (c == 4) != (cs[0] == 4) {
+						mixed = true
+					}
+				}
+				if mixed {
+					// lists that mix coils and registers: also after the same builder has produced the requests of the other
+					// kind (what the first call does to the builder must not show in the second)
+					pp := map[string]int{}
+					for k2, v := range pm {
+						pp[k2] = v
+					}
+					pp["pre"] = 1
+					js = append(js, sym.Job{Harness: "VH_C06_batches", Params: pp, MaxPath: 400000})
+				}
 				if k == 2 && cs[0] == cs[1] && (cs[0] == 0 || cs[0] == 4) {
 					// same-kind pairs also with adversarial concrete target names (prefix servers, ambiguous decimals)
 					pt := map[string]int{}
@@ -70,7 +86,7 @@ func init() {
 			return js
 		},
 		Bounds: map[string]string{
-			"quick":    "lists of 0..3 fields (all ordered pairs of classes; triples over the size classes 1/2/4 registers in sorted and in widest-first order); per field: server in {A,B} (case-split), unit id, address (all 65536), byte order, string length, bit number symbolic; field classes case-split over {Uint16, Int8, Uint32, Float64, String, Bit(any bit 0..255), Coil, invalid type}; split targets FC1-TCP, FC2-RTU, FC3-TCP, FC4-RTU; additionally pairs of fields on adversarial CONCRETE targets (servers {h1,h11,h1_1} x units {1,2,11,12,21}: names that collide when concatenated without a separator); map iteration order: all permutations up to 3 groups",
+			"quick":    "lists of 0..3 fields (all ordered pairs of classes; triples over the size classes 1/2/4 registers in sorted and in widest-first order); per field: server in {A,B} (case-split), unit id, address (all 65536), byte order, string length, bit number symbolic; field classes case-split over {Uint16, Int8, Uint32, Float64, String, Bit(any bit 0..255), Coil, invalid type}; split targets FC1-TCP, FC2-RTU, FC3-TCP, FC4-RTU; lists mixing coils and registers also after the same builder has first produced the requests of the other kind; additionally pairs of fields on adversarial CONCRETE targets (servers {h1,h11,h1_1} x units {1,2,11,12,21}: names that collide when concatenated without a separator); map iteration order: all permutations up to 3 groups",
 			"thorough": "all 8 split targets; additionally the triple (Uint32, Uint32, String) and lists of 4 numeric fields (4 x Uint16, Uint16+Uint32+2 x Float64, 4 x Float64)",
 		},
 		Outside:   []string{"more than 3 (thorough: 4) fields", "more than 2 distinct server strings", "field types not in the class list are represented by a type of the same register size"},
@@ -85,7 +101,7 @@ func init() {
 		Jobs: func(tier string) []sym.Job {
 			var js []sym.Job
 			add := func(k, target, lenient, trunc, strlen int, cs ...int) {
-				pm := map[string]int{"k": k, "target": target, "lenient": lenient, "trunc": trunc, "strlen": strlen, "c0": 0, "c1": 0, "c2": 0, "c3": 0}
+				pm := map[string]int{"k": k, "target": target, "lenient": lenient, "trunc": trunc, "strlen": strlen, "c0": 0, "c1": 0, "c2": 0, "c3": 0, "same": 0}
 				for i, c := range cs {
 					pm[[]string{"c0", "c1", "c2", "c3"}[i]] = c
 				}
@@ -118,6 +134,15 @@ func init() {
 						}
 					}
 				}
+				// two fields of the same type on the same registers (byte orders symbolic and independent)
+				for _, c := range ints(1, 3) {
+					js = append(js, sym.Job{Harness: "VH_C05_extract", Params: map[string]int{"k": 2, "target": t, "lenient": 0, "trunc": 0, "strlen": 4, "c0": c, "c1": c, "c2": 0, "c3": 0, "tricky": 0, "same": 1}, MaxPath: 400000, AbstractCRC: t%2 == 1})
+				}
+				// three fields on one device, the later ones nested inside a long first one (request window must still reach
+				// the end of the first)
+				for _, lenient := range ints(0, 1) {
+					js = append(js, sym.Job{Harness: "VH_C05_extract", Params: map[string]int{"k": 3, "target": t, "lenient": lenient, "trunc": 0, "strlen": 16, "c0": 3, "c1": 0, "c2": 1, "c3": 0, "tricky": 0, "same": 2}, MaxPath: 400000, AbstractCRC: t%2 == 1})
+				}
 				for _, p := range pairs {
 					add(2, t, 0, 0, 3, p...)
 					add(2, t, 1, 1, 3, p...)
@@ -136,7 +161,7 @@ func init() {
 			return js
 		},
 		Bounds: map[string]string{
-			"quick":    "1..2 fields (thorough 3) on 2 servers x 2 distinct symbolic unit ids; field address = symbolic base (whole address space) + offset case-split over {0,1,3,124} (straddling the 125-register limit); the first field is on server 0/unit 0 w.l.o.g.; classes {Uint16, Int8, Bit, Uint32, Int32, Float64, Uint64, String(len 3..6)}; byte order, bit, high/low symbolic; four independent symbolic memory images of 136 registers; FC3-TCP and FC4-RTU; strict and lenient extraction; conforming device and device truncating replies by 1 register",
+			"quick":    "1..2 fields (thorough 3; plus one nested triple String(16)/Uint16/Uint32 and same-type pairs on the same registers) on 2 servers x 2 distinct symbolic unit ids; field address = symbolic base (whole address space) + offset case-split over {0,1,3,124} (straddling the 125-register limit); the first field is on server 0/unit 0 w.l.o.g.; classes {Uint16, Int8, Bit, Uint32, Int32, Float64, Uint64, String(len 3..6)}; byte order, bit, high/low symbolic; four independent symbolic memory images of 136 registers; FC3-TCP and FC4-RTU; strict and lenient extraction; conforming device and device truncating replies by 1 register",
 			"thorough": "all four register targets; all class pairs; selected triples; truncation by 1 and 2 registers",
 		},
 		Outside:   []string{"more than 2 (thorough: 3) fields, more than 2 servers / 2 unit ids per server", "offsets outside the case-split set", "the decode of a single field is C04's subject: the expected value is obtained with the same accessors over the whole memory image"},
